@@ -105,22 +105,29 @@ Theorem C03_Ball_NDot_linear_q e0 e1 e2 e3' d0 d1 d2 d3 t w :
 Proof. exact (Ball_NDot_linear_q e0 e1 e2 e3' d0 d1 d2 d3 t w). Qed.
 Print Assumptions C03_Ball_NDot_linear_q.
 
-Theorem C03_Line_NDot_true_jet_q (i : nat) e0 e1 e2 e3' u0 u1 v0 v1 : (i < 4)%nat -> e0*e0+e1*e1+e2*e2+e3'*e3' = 1 ->
+Theorem C03_Line_NDot_jet_q (i : nat) e0 e1 e2 e3' u0 u1 v0 v1 : (i < 4)%nat -> e0*e0+e1*e1+e2*e2+e3'*e3' = 1 ->
   let qd := Line_Nq ROps (e0,e1,e2,e3') (u0,u1) in
   is_derive (fun t => e4 i (Line_Nq ROps (e0 + t*v4_0 qd, e1 + t*v4_1 qd, e2 + t*v4_2 qd, e3' + t*v4_3 qd) (v0,v1))) 0
-            (e4 i (Line_NDotq_true (e0,e1,e2,e3') qd (u0,u1) (v0,v1))).
-Proof. exact (Line_NDot_true_jet_q i e0 e1 e2 e3' u0 u1 v0 v1). Qed.
-Print Assumptions C03_Line_NDot_true_jet_q.
+            (e4 i (Line_NDotq ROps (e0,e1,e2,e3') qd (u0,u1) (v0,v1))).
+Proof. exact (Line_NDot_jet_q i e0 e1 e2 e3' u0 u1 v0 v1). Qed.
+Print Assumptions C03_Line_NDot_jet_q.
 
-Theorem C03_Line_NDot_impl_on_u e0 e1 e2 e3' ed u : e0*e0+e1*e1+e2*e2+e3'*e3' <> 0 ->
-  Line_NDotq_impl ROps (e0,e1,e2,e3') ed u = Line_NDotq_true (e0,e1,e2,e3') ed u u.
-Proof. exact (Line_NDot_impl_on_u e0 e1 e2 e3' ed u). Qed.
-Print Assumptions C03_Line_NDot_impl_on_u.
+Theorem C03_Line_NDot_prefix_on_u e0 e1 e2 e3' ed u : e0*e0+e1*e1+e2*e2+e3'*e3' <> 0 ->
+  Line_NDotq_prefix ROps (e0,e1,e2,e3') ed u = Line_NDotq ROps (e0,e1,e2,e3') ed u u.
+Proof. exact (Line_NDot_prefix_on_u e0 e1 e2 e3' ed u). Qed.
+Print Assumptions C03_Line_NDot_prefix_on_u.
 
-Theorem C03_Line_NDot_impl_refuted : exists e u v, v4_normSqr ROps e = 1 /\
-  let qd := Line_Nq ROps e u in Line_NDotq_impl ROps e qd v <> Line_NDotq_true e qd u v.
-Proof. exact (@Line_NDot_impl_refuted). Qed.
-Print Assumptions C03_Line_NDot_impl_refuted.
+Theorem C03_Line_NDot_prefix_refuted : exists e u v, v4_normSqr ROps e = 1 /\
+  let qd := Line_Nq ROps e u in Line_NDotq_prefix ROps e qd v <> Line_NDotq ROps e qd u v.
+Proof. exact (@Line_NDot_prefix_refuted). Qed.
+Print Assumptions C03_Line_NDot_prefix_refuted.
+
+Theorem C03_Line_qdd_jet_q (i : nat) e0 e1 e2 e3' u0 u1 b0 b1 : (i < 4)%nat -> e0*e0+e1*e1+e2*e2+e3'*e3' = 1 ->
+  let qd := Line_Nq ROps (e0,e1,e2,e3') (u0,u1) in
+  is_derive (fun t => e4 i (Line_Nq ROps (e0 + t*v4_0 qd, e1 + t*v4_1 qd, e2 + t*v4_2 qd, e3' + t*v4_3 qd) (u0 + t*b0, u1 + t*b1))) 0
+            (e4 i (v4_add ROps (Line_Nq ROps (e0,e1,e2,e3') (b0,b1)) (Line_NDotq ROps (e0,e1,e2,e3') qd (u0,u1) (u0,u1)))).
+Proof. exact (Line_qdd_jet_q i e0 e1 e2 e3' u0 u1 b0 b1). Qed.
+Print Assumptions C03_Line_qdd_jet_q.
 
 Theorem C03_qdd_jet_e q0 q1 q2 w b : cos q1 <> 0 ->
   let qd := Ball_Ne ROps (q0,q1,q2) w in
@@ -176,6 +183,10 @@ Theorem C03_Line_NInvT_adjoint_q e g qd : v2_dot ROps g (Line_NInvq ROps e qd) =
 Proof. exact (Line_NInvT_adjoint_q e g qd). Qed.
 Print Assumptions C03_Line_NInvT_adjoint_q.
 
+Theorem C03_Line_NDotT_adjoint_q e ed u f v : v4_dot ROps f (Line_NDotq ROps e ed u v) = v2_dot ROps (Line_NDotTq ROps e ed u f) v.
+Proof. exact (Line_NDotT_adjoint_q e ed u f v). Qed.
+Print Assumptions C03_Line_NDotT_adjoint_q.
+
 Theorem C03_Line_NInvT_adjoint_e a g qd : v2_dot ROps g (Line_NInve ROps a qd) = v3_dot ROps (Line_NInvTe ROps a g) qd.
 Proof. exact (Line_NInvT_adjoint_e a g qd). Qed.
 Print Assumptions C03_Line_NInvT_adjoint_e.
@@ -183,5 +194,4 @@ Print Assumptions C03_Line_NInvT_adjoint_e.
 Theorem C03_joint_exists_ex : exists j : tjoint, tjoint_ok j /\ t_V j <> ((0,0,0),(0,0,0)).
 Proof. exact (@C03_joint_exists). Qed.
 Print Assumptions C03_joint_exists_ex.
-
 
